@@ -9,6 +9,7 @@ PROFILES = [
     ('fail', {'nest': 0.3, 'fail': 1, 'busy': 1}),
     ('mixed', {'nest': 0.3, 'busy': 1, 'fail': 1, 'cp': 1, 'setks': 1, 'hb': 1, 'nopool': 0.15}),
     ('race', {'nest': 0.5, 'race': 1}),
+    ('reprep', {'nest': 0.3, 'reprep': 0.5}),
 ]
 
 
@@ -82,4 +83,47 @@ def load_corpus(pid):
 
 
 def max_id_of(cfg):
-    return min(cfg['max_in_flight'] - 1, 2 ** 15 - 1)
+    """the protocol's bound, computed independently of the constructor: v3+ streams are 0..2^15-1 (and the driver never
+    uses more than max_in_flight of them), v1/v2 streams are 0..127"""
+    mif = cfg.get('max_in_flight')
+    if mif is None:
+        mif = 2 ** 15
+    if cfg.get('protocol_version', 4) >= 3:
+        return min(mif - 1, 2 ** 15 - 1)
+    return min(mif, 2 ** 7 - 1)
+
+
+def initial_state_problems(cfg):
+    """C09 on the state the REAL Connection.__init__ produces: free ids pairwise distinct, exactly 0..highest_request_id,
+    highest <= the protocol maximum (so that growing by highest+1 can never hand out an id that is already in the deque)"""
+    h = conn_impl.Harness(**cfg)
+    c = h.conn
+    ids, hi, mx = list(c.request_ids), c.highest_request_id, max_id_of(cfg)
+    out = []
+    if len(set(ids)) != len(ids):
+        out.append(('initial-state.duplicate-free-id', 'constructor left duplicate ids in request_ids'))
+    if sorted(ids) != list(range(hi + 1)):
+        out.append(('initial-state.free-ids-vs-highest', 'constructor: request_ids = %d..%d (%d ids) but highest_request_id = %d: get_request_id would '
+                    'grow to %d, %s' % (min(ids), max(ids), len(ids), hi, hi + 1, 'an id that is already in the deque' if hi + 1 in ids else 'skipping ids')))
+    if hi > mx or (ids and max(ids) > mx) or c.__dict__['_mri_real'] > mx:
+        out.append(('initial-state.beyond-max', 'constructor: highest=%d max(free)=%d max_request_id=%d beyond the protocol maximum %d'
+                    % (hi, max(ids), c.__dict__['_mri_real'], mx)))
+    return out, {'free': [min(ids), max(ids), len(ids)], 'highest': hi, 'max_request_id': c.__dict__['_mri_real']}
+
+
+INIT_CFGS = [dict(n_init=None, max_in_flight=None, thr=None), dict(n_init=None, max_in_flight=4, thr=None),
+             dict(n_init=None, max_in_flight=300, thr=None), dict(n_init=None, max_in_flight=301, thr=None),
+             dict(n_init=None, max_in_flight=1, thr=None),
+             dict(n_init=None, max_in_flight=None, thr=None, protocol_version=2), dict(n_init=None, max_in_flight=10, thr=None, protocol_version=2),
+             dict(n_init=None, max_in_flight=500, thr=None, protocol_version=1)]
+
+
+def past_initial_fill(cfg, extra=3):
+    """one history on the connection exactly as the constructor built it: more requests simultaneously in flight than ids were
+    pre-allocated (the grow path of get_request_id), then every one answered"""
+    h = conn_impl.Harness(**cfg)
+    n = len(h.conn.request_ids) + extra
+    acts = [{'a': 'query', 'r': k + 1, 'in_cb': [{'a': 'return'}]} for k in range(n)]
+    acts += [{'a': 'respond_tok', 'r': k + 1} for k in range(n)]
+    h2 = conn_corr.run_history(cfg, acts)
+    return h2, acts
